@@ -195,6 +195,11 @@ fn build_input(c: &C13Case) -> Input {
                     "missing_value" => format!("{}\t{}\t{}", ch, s, e),
                     "bad_value" => format!("{}\t{}\t{}\tabc", ch, s, e),
                     "float_coordinate" => format!("{}\t{}.5\t{}\t1", ch, s, e),
+                    // a line with nothing on it where a record should be (the record is lost if the
+                    // line is skipped or taken for the end of the input)
+                    "blank" => String::new(),
+                    "whitespace_only" => " \t ".to_string(),
+                    "empty_chromosome_field" => format!("\t{}\t{}\t1", s, e),
                     _ => unreachable!(),
                 };
                 raw.insert(i, line);
@@ -390,6 +395,9 @@ fn c13_viols(bed: bool) -> Vec<(Viol, bool)> {
         "negative",
         "space_separated",
         "float_coordinate",
+        "blank",
+        "whitespace_only",
+        "empty_chromosome_field",
     ];
     if !bed {
         hows.push("missing_value");
@@ -585,6 +593,13 @@ pub enum C14Mode {
     Fault(FaultMode),
     /// refused input: the destination after the Err return
     Refused(Viol),
+    /// crash points over a destination that already holds an older complete file (rewritten in
+    /// place): every image is rejected, or serves the old file, or serves the new file - never a mixture
+    CrashOver,
+    /// faults x schedules: every operation index fails (once / from then on) under every schedule of
+    /// the writer pipeline with at most one deviation (C11's explorer), plus the crash images of
+    /// every distinct operation log those schedules produce
+    Sched,
 }
 
 #[derive(Clone, Debug, Serialize, Deserialize)]
@@ -595,6 +610,11 @@ pub struct C14Case {
     pub items: u32,
     pub opts: Opts,
     pub mode: C14Mode,
+    /// Sched mode only: this case explores the deviation vectors whose index is congruent to .0
+    /// modulo .1 (the all-default schedule belongs to part 0); the parts of one scenario together
+    /// are the whole deviation-bounded space
+    #[serde(default)]
+    pub part: Option<(u32, u32)>,
 }
 
 pub struct C14;
@@ -770,7 +790,7 @@ impl Check for C14 {
             for nchrom in [1usize, 2] {
                 for o in c14_opts(quick) {
                     for m in &modes {
-                        v.push(C14Case { bed, nchrom, items: 3, opts: o.clone(), mode: m.clone() });
+                        v.push(C14Case { bed, nchrom, items: 3, opts: o.clone(), mode: m.clone(), part: None });
                     }
                 }
             }
@@ -782,8 +802,12 @@ impl Check for C14 {
                     o.ips = 512;
                     o.two_pass = two_pass;
                     o.zoom = Zoom::Manual(vec![64]);
-                    for m in &modes {
-                        v.push(C14Case { bed, nchrom, items: 1500, opts: o.clone(), mode: m.clone() });
+                    // staged in memory and in temporary files
+                    for inmemory in [true, false] {
+                        o.inmemory = inmemory;
+                        for m in &modes {
+                            v.push(C14Case { bed, nchrom, items: 1500, opts: o.clone(), mode: m.clone(), part: None });
+                        }
                     }
                 }
             }
@@ -801,11 +825,18 @@ impl Check for C14 {
                         o.ips = 64;
                         o.two_pass = two_pass;
                         o.zoom = Zoom::Manual(vec![]);
-                        for m in &modes {
-                            if matches!(m, C14Mode::Crash) && nsec % 4 != 0 {
+                        // quick: staging kind alternates with the section count; thorough: both
+                        for inmemory in [true, false] {
+                            if quick && inmemory != (nsec % 2 == 1) {
                                 continue;
                             }
-                            v.push(C14Case { bed, nchrom, items: 64 * nsec, opts: o.clone(), mode: m.clone() });
+                            o.inmemory = inmemory;
+                            for m in &modes {
+                                if matches!(m, C14Mode::Crash) && nsec % 4 != 0 {
+                                    continue;
+                                }
+                                v.push(C14Case { bed, nchrom, items: 64 * nsec, opts: o.clone(), mode: m.clone(), part: None });
+                            }
                         }
                     }
                 }
@@ -821,8 +852,36 @@ impl Check for C14 {
                     o.two_pass = two_pass;
                     o.zoom = zoom;
                     for m in &modes {
-                        v.push(C14Case { bed, nchrom: 1, items: 300, opts: o.clone(), mode: m.clone() });
+                        v.push(C14Case { bed, nchrom: 1, items: 300, opts: o.clone(), mode: m.clone(), part: None });
                     }
+                }
+            }
+            // destination that already holds an older, longer file
+            for nchrom in [1usize, 2] {
+                for o in c14_opts(true) {
+                    v.push(C14Case { bed, nchrom, items: 3, opts: o.clone(), mode: C14Mode::CrashOver, part: None });
+                }
+            }
+            // faults and crash points under every schedule with <= 1 deviation
+            for two_pass in [false, true] {
+                for inmemory in [false, true] {
+                    for (nchrom, items, ips) in if quick { vec![(2usize, 3u32, 2u32)] } else { vec![(2usize, 3u32, 2u32), (3, 2, 1), (2, 6, 1024)] } {
+                        let mut o = Opts::base();
+                        o.two_pass = two_pass;
+                        o.inmemory = inmemory;
+                        o.ips = ips;
+                        v.push(C14Case { bed, nchrom, items, opts: o, mode: C14Mode::Sched, part: None });
+                    }
+                }
+                // more than 8 KiB staged per chromosome (uncompressed): a staged chromosome is handed
+                // to the destination in pieces larger than the destination's own buffer
+                let mut o = Opts::base();
+                o.two_pass = two_pass;
+                o.inmemory = false;
+                o.compress = false;
+                o.ips = 512;
+                for p in 0..8u32 {
+                    v.push(C14Case { bed, nchrom: 2, items: 1500, opts: o.clone(), mode: C14Mode::Sched, part: Some((p, 8)) });
                 }
             }
             // refused inputs
@@ -838,7 +897,7 @@ impl Check for C14 {
                 for two_pass in [false, true] {
                     let mut o = Opts::base();
                     o.two_pass = two_pass;
-                    v.push(C14Case { bed, nchrom: 3, items: 3, opts: o, mode: C14Mode::Refused(viol.clone()) });
+                    v.push(C14Case { bed, nchrom: 3, items: 3, opts: o, mode: C14Mode::Refused(viol.clone()), part: None });
                 }
             }
         }
@@ -978,6 +1037,202 @@ impl Check for C14 {
                     out.fail("complete_file_rejected", &tags, "no prefix image was accepted".into());
                 }
                 out.outcome_hash = Some(fnv(&full_img));
+            }
+            C14Mode::CrashOver => {
+                // the older file: two more items per chromosome, so it is longer and serves other records
+                let mut older = c.clone();
+                older.items = c.items + 2;
+                older.mode = C14Mode::Crash;
+                let s_old = Sink::new();
+                match c14_run_write(&older, s_old.clone()) {
+                    Ok(Ok(())) => {}
+                    other => {
+                        out.fail("write_failed_without_fault", &tags, format!("older file: {:?}", other));
+                        return;
+                    }
+                }
+                let old_img = s_old.bytes();
+                let Some(old) = serve(&old_img, c.bed) else {
+                    out.fail("complete_file_rejected", &tags, "the older complete image does not open".into());
+                    return;
+                };
+                let s_new = Sink::new();
+                let _ = c14_run_write(c, s_new.clone());
+                let Some(new) = serve(&s_new.bytes(), c.bed) else {
+                    out.fail("complete_file_rejected", &tags, "the complete image does not open".into());
+                    return;
+                };
+                if new == old {
+                    out.fail("harness_panic", &[], "older and newer file serve the same content".into());
+                    return;
+                }
+                let sink = Sink::recording_over(&old_img);
+                match c14_run_write(c, sink.clone()) {
+                    Ok(Ok(())) => {}
+                    other => {
+                        out.fail("write_failed_without_fault", &tags, format!("{:?}", other));
+                        return;
+                    }
+                }
+                let log = sink.log();
+                out.count("overwrite_histories", 1);
+                match serve(&sink.bytes(), c.bed) {
+                    Some(s) if s == new => {}
+                    other => out.fail("rewritten_file_wrong", &tags, format!("after rewriting an older file in place the destination serves {:?}", other.map(|s| s.chroms))),
+                }
+                for k in 0..=log.len() {
+                    let img = image_after_over(&old_img, &log, k);
+                    out.count("overwrite_crash_points", 1);
+                    match serve(&img, c.bed) {
+                        None => out.count("images_rejected", 1),
+                        Some(s) if s == old => out.count("images_serving_the_older_file", 1),
+                        Some(s) if s == new => out.count("images_serving_the_new_file", 1),
+                        Some(s) => {
+                            // refused answers are fine; a served answer must be the old or the new one
+                            let mut wrong = vec![];
+                            let which = if s.chroms == new.chroms && s.zoom_levels == new.zoom_levels { Some(&new) } else if s.chroms == old.chroms && s.zoom_levels == old.zoom_levels { Some(&old) } else { None };
+                            match which {
+                                None => wrong.push(format!("chromosome table {:?} / zoom levels {:?} are neither file's", s.chroms, s.zoom_levels)),
+                                Some(w) => {
+                                    for (i, d) in s.data.iter().enumerate() {
+                                        if let Ok(v) = d {
+                                            if w.data.get(i).map(|f| f.as_ref().ok() != Some(v)).unwrap_or(true) {
+                                                wrong.push(format!("chromosome {} serves {} records that are neither the older nor the new file's", i, v.len()));
+                                            }
+                                        }
+                                    }
+                                    for (i, d) in s.zooms.iter().enumerate() {
+                                        if let Ok(v) = d {
+                                            if w.zooms.get(i).map(|f| f.as_ref().ok() != Some(v)).unwrap_or(true) {
+                                                wrong.push(format!("zoom answer {} is neither file's", i));
+                                            }
+                                        }
+                                    }
+                                }
+                            }
+                            if wrong.is_empty() {
+                                out.count("images_partly_refused", 1);
+                            } else {
+                                out.fail(
+                                    "mixture_of_older_and_new_file_accepted",
+                                    &tags,
+                                    format!("image after {} of {} operations over an older file opens but: {}", k, log.len(), wrong.join("; ")),
+                                );
+                            }
+                        }
+                    }
+                }
+                out.outcome_hash = Some(fnv(&sink.bytes()));
+            }
+            C14Mode::Sched => {
+                use crate::sched::{execute_into, C11Case, Source};
+                let cc = C11Case {
+                    bed: c.bed,
+                    nchrom: c.nchrom,
+                    items: c.items,
+                    ips: c.opts.ips,
+                    source: Source::SerialIter,
+                    two_pass: c.opts.two_pass,
+                    chan: 100,
+                    inmemory: c.opts.inmemory,
+                    bound: 1,
+                    sweep_threads: None,
+                    conv: false,
+                    long_rest: 0,
+                    cli: false,
+                    uncompressed: !c.opts.compress,
+                    nonfinite: false,
+                };
+                tags.push(if c.opts.inmemory { "inmemory".into() } else { "tempfile".into() });
+                let nopath = std::path::PathBuf::from("/nonexistent");
+                let (r0, good, t0) = execute_into(&cc, &nopath, &[], Rt::Current, Sink::recording());
+                if r0.is_err() {
+                    out.fail("write_failed_without_fault", &tags, format!("{:?}", r0));
+                    return;
+                }
+                let Some(full) = serve(&good, c.bed) else {
+                    out.fail("complete_file_rejected", &tags, "the complete image does not open".into());
+                    return;
+                };
+                out.count("sched_fault_scenarios", 1);
+                out.count("hook_occurrences_baseline", t0.len() as u64);
+                let mut logs_seen = std::collections::HashSet::new();
+                let mut traces_seen = std::collections::HashSet::new();
+                // deviation vectors: none, then one yield at every hook occurrence of the default run
+                let mut devs: Vec<Vec<usize>> = vec![vec![]];
+                devs.extend((0..t0.len()).map(|i| vec![i]));
+                if let Some((p, m)) = c.part {
+                    devs = devs.into_iter().enumerate().filter(|(i, _)| *i as u32 % m == p).map(|(_, d)| d).collect();
+                }
+                for d in &devs {
+                    let rec = Sink::recording();
+                    let (r, b, t) = execute_into(&cc, &nopath, d, Rt::Current, rec.clone());
+                    out.count("schedules", 1);
+                    traces_seen.insert(fnv(format!("{:?}", t).as_bytes()));
+                    if r.is_err() || b != good {
+                        // C11's business; here the fault-free run must at least succeed
+                        out.fail("write_failed_without_fault", &tags, format!("schedule {:?}: {:?}, bytes equal: {}", d, r, b == good));
+                        continue;
+                    }
+                    let log = rec.log();
+                    let n = rec.ops();
+                    // (a) crash images of every distinct operation log
+                    if logs_seen.insert(fnv(format!("{:?}", log).as_bytes())) {
+                        out.count("distinct_operation_logs", 1);
+                        for k in 0..=log.len() {
+                            let img = image_after(&log, k);
+                            out.count("crash_points", 1);
+                            match serve(&img, c.bed) {
+                                None => out.count("images_rejected", 1),
+                                Some(s) => {
+                                    out.count("images_accepted", 1);
+                                    let ok = s.chroms == full.chroms
+                                        && s.zoom_levels == full.zoom_levels
+                                        && s.data.iter().enumerate().all(|(i, x)| x.is_err() || full.data.get(i).map(|f| f.as_ref().ok() == x.as_ref().ok()).unwrap_or(false))
+                                        && s.zooms.iter().enumerate().all(|(i, x)| x.is_err() || full.zooms.get(i).map(|f| f.as_ref().ok() == x.as_ref().ok()).unwrap_or(false));
+                                    if !ok {
+                                        out.fail("partial_file_accepted_with_data_missing", &tags, format!("schedule {:?}: image after {} of {} operations opens but serves other content than the complete file", d, k, log.len()));
+                                    }
+                                }
+                            }
+                        }
+                    }
+                    // (b) every operation index fails, once and from then on
+                    for mode in [FaultMode::Once, FaultMode::Sticky] {
+                        for k in 0..n {
+                            let sink = Sink::faulting(k, mode);
+                            let (r, _, _) = execute_into(&cc, &nopath, d, Rt::Current, sink.clone());
+                            out.count("fault_runs", 1);
+                            if sink.faults_injected() == 0 {
+                                out.count("fault_position_not_reached_or_not_applicable", 1);
+                                continue;
+                            }
+                            match r {
+                                Err(e) if e.starts_with("panic:") => out.count("fault_runs_panicked", 1),
+                                Err(_) => out.count("fault_runs_returned_err", 1),
+                                Ok(()) => {
+                                    let mut t2 = tags.clone();
+                                    t2.push(format!("fault_{:?}", mode).to_lowercase());
+                                    out.fail(
+                                        "io_failure_reported_as_success",
+                                        &t2,
+                                        format!(
+                                            "schedule {:?} (yield at {:?}): destination failed at operation {} of {} ({:?}) but write returned Ok(()); bytes {} the fault-free file",
+                                            d,
+                                            d.iter().map(|i| t0.get(*i)).collect::<Vec<_>>(),
+                                            k,
+                                            n,
+                                            mode,
+                                            if sink.bytes() == good { "equal" } else { "DIFFER from" }
+                                        ),
+                                    );
+                                }
+                            }
+                        }
+                    }
+                }
+                out.count("distinct_traces", traces_seen.len() as u64);
+                out.outcome_hash = Some(fnv(&good) ^ traces_seen.len() as u64);
             }
             C14Mode::Fault(mode) => {
                 // fault-free run to learn the number of operations and the expected bytes
